@@ -164,7 +164,7 @@ func c19Body(o c19Opts) func() {
 			}))
 		}
 		if o.closeListener {
-			ths = append(ths, vrt.GoProc("listener-closer", 2, func() { vrt.AnyMoment(); ln.Close() }))
+			ths = append(ths, vrt.GoLazy("listener-closer", 2, func() { ln.Close() }))
 		}
 		vrt.WaitThreads(ths...)
 		vrt.WaitIdle(vrt.Second)
